@@ -68,18 +68,20 @@ func HistString(h []Ev) string {
 
 // Scenario fixes the alphabet and configuration of one exploration.
 type Scenario struct {
-	Name     string
-	Workers  int
-	IDs      []string   // trace IDs (worker placement / sampler verdicts are chosen by the caller)
-	Kinds    []fx.Kind  // span kinds in the alphabet
-	Marked   bool       // also offer child spans carrying the marker field "d"
-	Samplers []func() any // sampler configs; `reload` switches to the next one (cyclically)
-	DryRun   bool
+	Name          string
+	Workers       int
+	IDs           []string     // trace IDs (worker placement / sampler verdicts are chosen by the caller)
+	Kinds         []fx.Kind    // span kinds in the alphabet
+	Marked        bool         // also offer child spans carrying the marker field "d"
+	Samplers      []func() any // sampler configs; `reload` switches to the next one (cyclically)
+	DryRun        bool
 	KeptPerWorker uint // capacity of the kept-decision LRU per worker
-	Traces   config.TracesConfig
-	Advances []time.Duration
-	EjectBytes []int
-	Maintain bool
+	Traces        config.TracesConfig
+	Advances      []time.Duration
+	EjectBytes    []int
+	Maintain      bool
+	LoopTick      time.Duration // loop conformance: SendTicker period = one "advtick" (default SendDelay)
+	LoopNoEject   bool
 
 	Depth            int
 	MaxSpansPerTrace int
@@ -357,7 +359,7 @@ func (r *Run) observe(e Ev, b0 map[string]fx.TraceView, q0 map[*types.Trace]bool
 			keep = true
 		default:
 			r.add("c02:left-buffer-undecided:"+e.Op, "trace %s (%d spans) left the buffer during %v without any decision being recorded", id, len(i.spans), e)
-			i.decided, i.keep, i.by = true, false, e.Op
+			i.decided, i.keep, i.by, i.decidedAt = true, false, e.Op, r.step
 			i.others = map[string]bool{}
 			continue
 		}
